@@ -87,6 +87,12 @@ pub const SDK_DOMAIN: &str = "s3.example.com";
 
 /// An SDK client talking to `service` in-process.
 pub fn client(service: S3Service, addressing: Addressing, strip_auth: bool, rewrite: Option<Rewrite>) -> (aws_sdk_s3::Client, Arc<Mutex<Vec<Captured>>>) {
+    client_cfg(service, addressing, strip_auth, rewrite, false)
+}
+
+/// `sdk_defaults`: leave the SDK's checksum behaviour at its defaults (since 2025: a CRC32 of every upload, sent as a
+/// trailer of an aws-chunked body) instead of "only when required"
+pub fn client_cfg(service: S3Service, addressing: Addressing, strip_auth: bool, rewrite: Option<Rewrite>, sdk_defaults: bool) -> (aws_sdk_s3::Client, Arc<Mutex<Vec<Captured>>>) {
     let captured = Arc::new(Mutex::new(Vec::new()));
     let http = CaptureClient { service, captured: captured.clone(), strip_auth, rewrite };
     let conf = aws_sdk_s3::Config::builder()
@@ -96,8 +102,8 @@ pub fn client(service: S3Service, addressing: Addressing, strip_auth: bool, rewr
         .endpoint_url(format!("http://{SDK_DOMAIN}"))
         .force_path_style(addressing == Addressing::Path)
         .http_client(http)
-        .request_checksum_calculation(RequestChecksumCalculation::WhenRequired)
-        .response_checksum_validation(ResponseChecksumValidation::WhenRequired)
+        .request_checksum_calculation(if sdk_defaults { RequestChecksumCalculation::WhenSupported } else { RequestChecksumCalculation::WhenRequired })
+        .response_checksum_validation(if sdk_defaults { ResponseChecksumValidation::WhenSupported } else { ResponseChecksumValidation::WhenRequired })
         .stalled_stream_protection(StalledStreamProtectionConfig::disabled())
         .retry_config(aws_sdk_s3::config::retry::RetryConfig::disabled())
         .build();
